@@ -37,7 +37,7 @@ class RtGen:
             elif k < 0.7:
                 out.append(r.choice(['%env("GV_SET")%', '%env("GV_NOPE", "dflt")%', '%envInt("GV_INT")%', '%envInt("GV_NOPE", 7)%', '%fn("x", 3)%', '%lk("k")%']))
             else:
-                out.append(r.choice(["a", " ", "x-y", "é", "/", "0", "lorem ipsum", "\"q\"", "\\"]))
+                out.append(r.choice(["a", " ", "x-y", "é", "/", "0", "lorem ipsum", "\"q\"", "\\", "\"", "say \"", "'", "`", "(", ")", ", "]))
         return "".join(out)
 
     def arg(self, i, params):
